@@ -704,7 +704,9 @@ impl Session {
                 }
             }
             AKind::Audio => {
-                let au = AudioSource { bytes: (0..(n % 40 + 1)).map(|i| (n + i) as u8).collect::<Vec<u8>>().into() };
+                // n >= 1_000_000: a body of n / 1_000_000 MiB (its download takes many frames)
+                let len = if n >= 1_000_000 { (n / 1_000_000) << 20 } else { n % 40 + 1 };
+                let au = AudioSource { bytes: (0..len).map(|i| (n + i + (i >> 11)) as u8).collect::<Vec<u8>>().into() };
                 let mut a = w.resource_mut::<Assets<AudioSource>>();
                 match uuid {
                     Some(u) => a.insert(AssetId::Uuid { uuid: u }, au),
@@ -731,6 +733,22 @@ impl Session {
             t.get(kind.name()).and_then(|m| m.get(hex(u.as_bytes()))).and_then(|v| v.as_str().map(|s| s.to_string()))
         });
         self.trace.push(json!({"ev":"op","op":"asset_insert","peer":peer,"kind":kind.name(),"uuid":uuid.map(|u| hex(u.as_bytes())),"n":n,"hash":hash}));
+    }
+
+    /// an announcement of an audio asset served by somebody else's endpoint (what the host relays for a client's asset):
+    /// the genuine wire message, sent through the host's `RenetServer` to every client
+    pub fn announce_external_audio(&mut self, id: Uuid, url: &str) -> bool {
+        let w = self.peers[0].app.world_mut();
+        let Some(mut server) = w.get_resource_mut::<RenetServer>() else { return false };
+        let bytes = verif::encode_message(&verif::VMessage::AudioUpdated { id, url: url.to_string() });
+        server.broadcast_message(bevy_renet::renet::DefaultChannel::ReliableOrdered, bytes);
+        self.trace.push(json!({"ev":"op","op":"announce_external_audio","peer":0,"uuid":hex(id.as_bytes())}));
+        true
+    }
+
+    pub fn audio_bytes(&self, peer: u32, id: Uuid) -> Option<Vec<u8>> {
+        let w = self.peers[peer as usize].app.world();
+        w.get_resource::<Assets<AudioSource>>().and_then(|a| a.get(AssetId::Uuid { uuid: id })).map(|a| a.bytes.to_vec())
     }
 
     /// the application supplies the engine companions of some kinds itself (with recognisable values)
